@@ -20,7 +20,8 @@ from .core import cstr, cz, clist
 IMPORTS = ("Require Import Hdl21.Base.PyInt Hdl21.Base.Design Hdl21.Base.Package Hdl21.Model.C06Export Hdl21.Corr.C03 Hdl21.Corr.C06.")
 EXAMPLES = ["ro", "rdac", "encoder", "mos_sim", "diff_ota", "idac", "bundles"]
 MODEL_TYPES = ["RESISTOR", "CAPACITOR", "MOS", "DIODE", "BIPOLAR", "VSOURCE", "TLINE"]
-PRIM_CLASS = {"Mos": "Mos", "R": "IdealResistor", "C": "IdealCapacitor", "Bjt": "Bipolar", "D": "Diode", "Res3": "ThreeTerminalResistor"}
+PRIM_CLASS = {"Mos": "Mos", "R": "IdealResistor", "C": "IdealCapacitor", "Bjt": "Bipolar", "D": "Diode", "Res3": "ThreeTerminalResistor",
+              "Vdc": "DcVoltageSource", "Vpulse": "PulseVoltageSource"}
 LIBPREFIX = {None: "__main__.", "a": "c06liba.", "b": "c06libb."}     # the builder of harness/impl/c06.py runs as __main__
 WHAT = {31: "an instance parameter without a name or a value, or a repeated parameter name",
         41: "from_proto rejects a well-formed package", 42: "a netlister rejects a well-formed package whose flat names are unique",
@@ -193,6 +194,11 @@ def corpus():
                                           [_ext(name="cell", domain="lib")]), "ok"))
     out.append(("class-params-unset", _top([_xi("c", 0, {"tag": 2, "vt": None, "m": None, "w": ["p", "1.5", "MICRO"]})],
                                            [_ext(name="cell", domain="lib", ptype="class")]), "ok"))
+    # ideal sources whose required parameters are given with the value 0 (a value, not "un-set")
+    out.append(("ideal-sources-zero-values", _top([
+        dict(name="v0", n=0, of=["prim", "Vdc", 0], conns=[["p", ["sig", "x"]], ["n", ["sig", "y"]]]),
+        dict(name="v1", n=0, of=["prim", "Vpulse", 0], conns=[["p", ["sig", "y"]], ["n", ["sig", "x"]]]),
+        dict(name="v2", n=0, of=["prim", "Vpulse", 1], conns=[["p", ["sig", "y"]], ["n", ["sig", "x"]]])], []), "ok"))
     # RECORDED FINDINGS: packages that are closed and self-consistent, yet refused by the spice and spectre netlisters because
     # the netlist languages have ONE name space (vlsirtools/netlist/base.py documents the limit)
     out.append(("flat-names-external-subckts", _top([_xi("r1", 0, {"r": 1}), _xi("r2", 1, {"r": 2})],
